@@ -13,7 +13,29 @@
 (* float(text) equality itself is evaluated by the harness (TLC has no floats).                    *)
 EXTENDS AtomTablesDefs, TLC
 
+(*                                                                                                *)
+(* Every event also says how it was presented (the property does not depend on it):                *)
+(*   pass   1 = first evaluation; 2 = the same lookup / the same attenuation case once more at the  *)
+(*          end of the run, after all other calls and in another order; `of` is then the line of    *)
+(*          the first evaluation and TLC checks that it is the same case;                           *)
+(*   mu     wl_type / n_type: number type of wavelength and number density (NumTypes: the same       *)
+(*          number as float64, float32, int64, int32); lay: the wavelength as a 0-d variable, a     *)
+(*          list, an unsorted list, a transposed 2-d array (WavelengthLayouts; rel_ok is then the    *)
+(*          conjunction over all elements); kept: the wavelength variable handed over still holds   *)
+(*          the same numbers after the call.                                                        *)
 Tr == ndJsonDeserialize(IOEnv.TRACE_FILE)
+
+Presentation(e, line) ==
+    IF e.ev = "mu" /\ (e.wl_type \notin NumTypes \/ e.n_type \notin NumTypes) THEN "oracle_unknown_number_type"
+    ELSE IF e.ev = "mu" /\ e.lay \notin WavelengthLayouts THEN "oracle_unknown_layout"
+    ELSE IF e.pass = 1 THEN (IF e.of = 0 THEN "ok" ELSE "oracle_replay_is_not_the_same_case")
+    ELSE IF e.pass # 2 \/ ~(e.of \in 1..(line - 1)) THEN "oracle_replay_is_not_the_same_case"
+    ELSE LET f == Tr[e.of]
+         IN IF f.ev # e.ev \/ f.pass # 1 THEN "oracle_replay_is_not_the_same_case"
+            ELSE IF e.ev \in {"scat", "atom"} /\ f.cp # e.cp THEN "oracle_replay_is_not_the_same_case"
+            ELSE IF e.ev = "mu" /\ (f.case # e.case \/ f.small # e.small \/ f.want # e.want)
+                 THEN "oracle_replay_is_not_the_same_case"
+            ELSE "ok"
 
 VARIABLES l, nbad
 tvars == <<l, nbad>>
@@ -59,17 +81,21 @@ JudgeMu(e) ==
     ELSE IF e.raised THEN "attenuation_raised"
     ELSE IF ~e.dim_ok THEN "attenuation_is_not_an_inverse_length"
     ELSE IF ~e.rel_ok THEN "attenuation_differs_from_law"
+    ELSE IF ~e.kept THEN "wavelength_argument_modified"
     ELSE "ok"
 
-Judge(e) == IF e.ev = "scat" THEN JudgeScat(e)
+Judge(e, line) ==
+    IF e.ev \notin {"scat", "atom", "mu"} THEN "unknown_event"
+    ELSE LET p == Presentation(e, line)
+         IN IF p # "ok" THEN p
+            ELSE IF e.ev = "scat" THEN JudgeScat(e)
             ELSE IF e.ev = "atom" THEN JudgeAtom(e)
-            ELSE IF e.ev = "mu" THEN JudgeMu(e)
-            ELSE "unknown_event"
+            ELSE JudgeMu(e)
 
 TInit == l = 1 /\ nbad = 0
 TNext == /\ l <= Len(Tr)
          /\ l' = l + 1
-         /\ LET v == Judge(Tr[l]) IN
+         /\ LET v == Judge(Tr[l], l) IN
             /\ nbad' = IF v = "ok" THEN nbad ELSE nbad + 1
             /\ (v = "ok" \/ PrintT(<<"REJECT", l, Tr[l].tid, v>>))
 TSpec == TInit /\ [][TNext]_tvars
